@@ -109,14 +109,30 @@ fn wrap(link: u8, ip: &[u8]) -> Vec<u8> {
             f[..12].copy_from_slice(&[0x45, 0, 0, 0x28, 0, 0, 0x40, 0, 0x40, 0x06, 0, 0]);
             f
         }
-        _ => {
+        6 => {
             let mut f = pkt::frame(Link::Ethernet, ip);
             f[..12].copy_from_slice(&[0x60, 0, 0, 0, 0, 0x14, 0x06, 0x40, 0x20, 0x01, 0, 0]);
             f
         }
+        // ... or like a NULL/loopback header followed by an IP version nibble
+        7 => {
+            let mut f = pkt::frame(Link::Ethernet, ip);
+            f[..12].copy_from_slice(&[0x1e, 0, 0x5e, 0x12, 0x45, 0x01, 0x02, 0, 0, 0x06, 0, 0x01]);
+            f
+        }
+        8 => {
+            let mut f = pkt::frame(Link::Ethernet, ip);
+            f[..12].copy_from_slice(&[0x1e, 0, 0, 0, 0x60, 0x01, 0x02, 0, 0, 0, 0x06, 0x01]);
+            f
+        }
+        _ => {
+            let mut f = pkt::frame(Link::Ethernet, ip);
+            f[..12].copy_from_slice(&[0x02, 0, 0, 0, 0x45, 0x00, 0x00, 0x28, 0, 0, 0x40, 0x00]);
+            f
+        }
     }
 }
-const LINKS: [&str; 7] = ["raw", "ethernet", "null-1e", "null-02", "null-1c", "ethernet-macs-like-ipv4-header", "ethernet-macs-like-ipv6-header"];
+const LINKS: [&str; 10] = ["raw", "ethernet", "null-1e", "null-02", "null-1c", "ethernet-macs-like-ipv4-header", "ethernet-macs-like-ipv6-header", "ethernet-macs-like-loopback-1e-ipv4", "ethernet-macs-like-loopback-1e-ipv6", "ethernet-macs-like-loopback-02"];
 
 pub fn traces() -> Vec<Trace> {
     let mut v = vec![];
@@ -128,7 +144,7 @@ pub fn traces() -> Vec<Trace> {
             if v6 && ihl != 5 {
                 continue;
             }
-            for link in 0..7u8 {
+            for link in 0..10u8 {
                 for (cport, sport) in [(40000u16, 80u16), (40005, 443)] {
                     let mk = |from_client: bool, flags: u8, seq: u32, payload: &[u8]| -> Vec<u8> {
                         let (src, sp, dst, dp) = if from_client { (1u8, cport, 2u8, sport) } else { (2, sport, 1, cport) };
